@@ -20,8 +20,8 @@ OPS = ["k*x", "x*k", "x/k", "x//k", "x+k", "k+x", "x-k", "k-x", "k/x", "k//x"]
 KS = ["sym", "int", "np.float64", "np.float32", "np.int64", "ndarray", "sym_ndarray", "list"]
 BOUNDS = {
     "quick": "values and python-float k: all reals; x in %s; all ten operators in both operand orders; k kinds: symbolic python float, python int 3 and -2, "
-             "numpy.float64/float32/int64 scalars and float64 ndarrays from a concrete set (with concrete amounts), symbolic object-ndarray; containers of length 2" % XS,
-    "thorough": "same with container lengths 1..3 and every (x, k kind, operator) combination",
+             "numpy.float64/float32/int64 scalars and float64 ndarrays from a concrete set (with concrete amounts), symbolic object-ndarray; containers of length 0 and 2" % XS,
+    "thorough": "same with container lengths 0..3 and every (x, k kind, operator) combination",
 }
 ASSUMPTIONS = ["A-FP", "A-NP", "numpy scalars/float64 ndarrays as k are concrete (enumerated), the solver quantifies over the amounts and python-float k only",
                "ndarray k is claimed for Array/FixedArray x (the reflected Array operators support it); Scalar with ndarray k is not part of the claim"]
@@ -38,9 +38,9 @@ def items(tier, seed):
                     continue
                 if k == "list":
                     continue  # a python list is not a number/ndarray operand
-                ns = [2] if tier == "quick" else [1, 2, 3]
+                ns = [0, 2] if tier == "quick" else [0, 1, 2, 3]
                 for n in (ns if not x.startswith("s_") else [1]):
-                    if x.startswith("f_") and n < 2:
+                    if (x.startswith("f_") and n < 2) or (n == 0 and (x in ("a_np_m2",) or k in ("ndarray", "sym_ndarray"))):
                         continue
                     out.append({"x": x, "op": op, "k": k, "n": n})
     out.append({"x": "s_m", "op": "k*x", "k": "sym", "n": 1, "canary": True})
@@ -61,10 +61,10 @@ def _mk(cfg, V):
 
     name, n = cfg["x"], cfg["n"]
     conc = cfg["k"] in ("np.float64", "np.float32", "np.int64", "ndarray")
-    xs = [CONCRETE["x%d" % i] if conc else V["x%d" % i] for i in range(3)][:max(n, 1)]
+    xs = [CONCRETE["x%d" % i] if conc else V["x%d" % i] for i in range(3)][:(n if name.startswith("a_") else max(n, 1))]
 
     def arr(v):
-        return SymArray(v) if core.is_sym(v[0]) else numpy.array(v, dtype=float)
+        return SymArray(v) if (v and core.is_sym(v[0])) else numpy.array(v, dtype=float)
 
     if name == "s_m":
         return Scalar(xs[0], "m"), xs[:1]
